@@ -2,6 +2,7 @@ package main
 
 import (
 	"math/rand"
+	"strconv"
 	"strings"
 
 	"verifharness/kvh"
@@ -18,7 +19,13 @@ import (
 
 func c22History(r *rand.Rand, tier string, i int) []string {
 	var header, handles []string
-	switch x := r.Intn(24); {
+	switch x := r.Intn(27); {
+	case x == 24:
+		header, handles = strings.Fields("ldb!"+strconv.Itoa(r.Intn(5))+" f"), []string{"0", "0", "0", "1"}
+	case x == 25:
+		header, handles = strings.Fields("pbl!"+strconv.Itoa(r.Intn(5))+" z"), []string{"0", "0", "0", "1"}
+	case x == 26:
+		header, handles = strings.Fields("mem! f"), []string{"0", "0", "0", "1"}
 	case x < 9:
 		header, handles = strings.Fields("mem f"), []string{"0", "0", "0", "1"}
 	case x < 14:
@@ -35,7 +42,7 @@ func c22History(r *rand.Rand, tier string, i int) []string {
 		header, handles = strings.Fields("mem f z"), []string{"0", "0", "1", "2"}
 	}
 	c := kvh.GenCfg{Header: header, Handles: handles, NOps: 10 + r.Intn(50), Live: r.Intn(4) == 0,
-		BigValues: r.Intn(10) == 0, SweepPairs: 10, Reopen: header[0] != "mem" && r.Intn(4) == 0}
+		BigValues: r.Intn(6) == 0, SweepPairs: 10, Reopen: header[0][:3] != "mem" && r.Intn(4) == 0, Stat: r.Intn(6) == 0}
 	out := kvh.Gen(r, c)
 	if tier == "thorough" && i%20 == 0 {
 		// every (prefix, start) over the alphabet up to length 2 (and nil), on the flushable
